@@ -84,7 +84,8 @@ PROPS = {
         theorems=[],
         streams=[stream('union', 'whole', kinds=('union',), faults=0.3)],
         k2=['union'], k2_n=(80, 800),
-        direct=('c20', (1500, 20000)),
+        k2_also=[('bounds', 'CopyClone', (30, 200))],
+        direct=[('c20', (1500, 20000)), ('rejections', (1500, 15000), dict(pool=['Debug', 'PartialEq', 'Hash', 'Clone', 'Copy', 'Default', 'Eq'], kinds=('union',), key='c20r'))],
     ),
     'C09': dict(
         title='Deref and DerefMut expose exactly the designated field',
@@ -108,31 +109,33 @@ PROPS = {
         theorems=[],
         streams=[stream('all', 'whole', faults=0.05, n=(4000, 60000))],
         k2=['eq', 'hash', 'ord', 'ordlayout', 'debug', 'clone', 'default', 'deref', 'into', 'union', 'bounds', 'generics'],
-        k2_ops=['compile', 'crash'], k2_n=(80, 600),
+        k2_ops=['compile', 'crash'], k2_n=(80, 600), k2_n_by={'debug': (200, 1500), 'generics': (150, 1000)},
     ),
     'C11': dict(
         title='Automatic bounds are exactly those the generated code needs',
         theorems=[],
         streams=[stream('hdr_auto', 'headers', kinds=('struct', 'enum', 'union'), faults=0.0, n=(3000, 50000))],
         k2=['bounds'], k2_n=(500, 5000),
+        direct=[('rejections', (1500, 15000), dict(key='c11r'))],
     ),
     'C19': dict(
         title='Generated code is insulated from the names at the derive site',
         theorems=[],
         streams=[stream('names', 'whole', faults=0.0, n=(3000, 50000))],
-        k2=['eq', 'hash', 'ord', 'debug', 'clone', 'deref', 'into', 'generics'], k2_hostile=True, k2_n=(40, 400),
+        k2=['eq', 'hash', 'ord', 'debug', 'clone', 'default', 'deref', 'into', 'union', 'generics'], k2_hostile=True, k2_n=(40, 400),
     ),
     'C12': dict(
         title="Explicit bound modes and the type's own generics are honoured verbatim",
         theorems=[],
         streams=[stream('hdr', 'headers', kinds=('struct', 'enum', 'union'), faults=0.0, n=(3000, 50000))],
         k2=['generics', 'bounds'], k2_n=(100, 1500),
+        direct=[('c12', (3000, 30000)), ('rejections', (1500, 15000), dict(key='c12r'))],
     ),
     'C13': dict(
         title='Contradictory, ambiguous or misplaced attributes are rejected, not guessed',
         theorems=[],
         streams=[stream('invalid', 'outcome', faults=0.9, n=(4000, 60000))],
-        direct=('c13', (5000, 80000)),
+        direct=[('c13', (5000, 80000)), ('c13_subsets', (1500, 20000))],
     ),
     'C14': dict(
         title='Alternative attribute spellings are interchangeable',
@@ -244,6 +247,14 @@ def run_k1(st, seed, n, report, stats, samples):
             # for C17 the input itself is the counterexample, whatever the model says
             report.fail('c17:' + hashlib.sha256(c.rust().encode()).hexdigest()[:12],
                         'the macro does not return on this input (%s): %s' % (real[i][0], real[i][1][:200]), dict(input=c.rust()), found_input=True)
+        if report.pid == 'C19' and cls[0] == 'OK' and '::std' not in c.rust().replace(' ', '') and 'alloc' not in c.rust():
+            toks = cls[2]
+            for j in range(len(toks) - 3):
+                if toks[j] == ':' and toks[j + 1] == ':' and toks[j + 2] in ('std', 'alloc') and (j == 0 or toks[j - 1] not in (':',) and not toks[j - 1][0].isalnum() and toks[j - 1] != '>'):
+                    report.fail('c19:std:' + hashlib.sha256(c.rust().encode()).hexdigest()[:12],
+                                'the expansion of this input names `::%s`: it cannot compile in a #![no_std] crate (…%s…)' % (toks[j + 2], ' '.join(toks[max(0, j - 6):j + 12])),
+                                dict(input=c.rust()), found_input=True)
+                    break
         if v == 'diff':
             report.k1_diffs.append(dict(stream=st['name'], case=i, input=c.rust(), detail=d))
         if v == 'ood':
@@ -316,7 +327,7 @@ def run_check(pid, tier, seed):
             import k2
             kn = P.get('k2_n')
             k2_failures, k2_stats = k2.run(pid, P['k2'], tier, seed, n=(kn[0 if tier == 'quick' else 1] if kn else None),
-                                           hostile=P.get('k2_hostile', False), only_ops=P.get('k2_ops'), also=P.get('k2_also'))
+                                           hostile=P.get('k2_hostile', False), only_ops=P.get('k2_ops'), also=P.get('k2_also'), n_by=P.get('k2_n_by'))
         except ImportError:
             k2_stats = dict(skipped='k2 not built yet')
     for f in k2_failures:
